@@ -21,7 +21,12 @@ def fits_selector(pfn, selector):
     """
     fname = pfn
     fcat = pfn.__annotations__.get("return", None)
-    fvars = pfn.__ptera_info__
+    fvars = getattr(pfn, "__ptera_info__", None)
+
+    if fvars is None:
+        # The last probe on this function was deactivated (by another thread)
+        # while this call was starting: nothing is captured in it anymore
+        return False
 
     if not check_element(selector.element, fname, fcat):
         return False
